@@ -246,7 +246,8 @@ func (s *State) Eval(op prog.Op, now int64) Outcome {
 		return val(EncPairs(ks, vs), nil)
 	case "range":
 		if op.Key > op.Key2 {
-			return errOnly()
+			// a reversed range holds no key: an error or an empty result
+			return Outcome{Vals: []string{"[]"}, ErrOK: true}
 		}
 		ks, vs := s.liveKeys(op.B, now, func(k string) bool { return k >= op.Key && k <= op.Key2 })
 		if len(ks) == 0 {
